@@ -1,5 +1,6 @@
 /- Line-protocol driver for C17 (level registry) and the `Q` quoting probes. -/
 import Logg.Bridge.Registry
+import Logg.Gen.Decisions
 import Logg.Model.Unquote
 import Logg.Model.IsPrint
 
@@ -43,6 +44,9 @@ def step (r : Registry) (toks : List String) : Registry × String :=
   | ["treat", l] => match l.toInt? with
     | some l => (r, match r.treatAs.lookup l with | some t => toString t | none => "none")
     | none => (r, "bad-op")
+  | ["gate", lg, l] => match lg.toInt?, l.toInt? with
+    | some lg, some l => (r, boolStr (Gen.enabled { treatAs := r.treatAs } lg l))
+    | _, _ => (r, "bad-op")
   | ["errdev", l] => match l.toInt? with
     | some l => (r, boolStr (r.errorDevice.lookup l).isSome)
     | none => (r, "bad-op")
